@@ -15,7 +15,8 @@ AUDIT_FILES = ["PyroModel/Exceptions.lean", "PyroModel/Gen/C07.lean", "PyroProof
 THEOREMS = ["Pyro.C07.C07_roundtrip_partial", "Pyro.C07.C07_roundtrip_batch_partial", "Pyro.C07.C07_roundtrip_whitelisted",
             "Pyro.C07.C07_fallback", "Pyro.C07.C07_fallback_batch", "Pyro.C07.C07_never_silent", "Pyro.C07.C07_no_hang",
             "Pyro.C07.C07_usable_after", "Pyro.C07.C07_usable_after_roundtrip", "Pyro.C07.C07_usable_after_fallback",
-            "Pyro.C07.C07_usable_after_batch", "Pyro.C07.C07_unknown_class",
+            "Pyro.C07.C07_usable_after_batch", "Pyro.C07.C07_usable_after_comm", "Pyro.C07.C07_stream_item_after_housekeeping",
+            "Pyro.C07.C07_unknown_class",
             "Pyro.C07.C07_roundtrip_fails_nonexception", "Pyro.C07.C07_roundtrip_fails_comm", "Pyro.C07.C07_batch_stopiteration",
             "Pyro.C07.C07_gen_whitelist_resolves", "Pyro.C07.C07_gen_whitelist_covers", "Pyro.C07.C07_gen_special",
             "Pyro.C07.C07_gen_flags_sane", "Pyro.C07.C07_gen_sendable", "Pyro.C07.C07_gen_error_path",
@@ -30,7 +31,9 @@ RULE = ("ALL exception classes of vars(builtins) and all PyroError subclasses of
         "Unicode errors; values from each serializer's lossless domain: None/bool/int/str/float/list/dict, tuples for "
         "serpent+marshal, bytes for marshal+msgpack) x attribute dicts (0-3 custom attributes, '__notes__', a pre-set "
         "_pyroTraceback) x 4 serializers x call kinds plain / callback / attribute get / attribute set / stream item / batch "
-        "member at position 0-3 with 0-2 calls after it, method calls through proxies with _pyroMaxRetries 0/1/2, the server object "
+        "member at position 0-3 with 0-2 calls after it, method calls through proxies with _pyroMaxRetries 0/1/2, stream items "
+        "fetched after a Daemon._housekeeping() run under ITER_STREAM_LIFETIME 0/60/3600 s and ITER_STREAM_LINGER 0/30 s, every case "
+        "followed by a second call on the same proxy, the server object "
         "being a delegating wrapper (defines __getattr__), against a real Daemon (thread-pool server, unix socket); plus "
         "unserialisable argument/attribute values (object(), lock, builtin function, bound method), classes unknown to the "
         "receiver (with and without '__' in the module name), exceptions whose args were reassigned so that the receiver's "
@@ -258,6 +261,9 @@ def gen_cases(ctx, rng, n_extra):
             c["after"] = rng.randint(0, 2)
         if kind in ("p", "c") and shape_pick is not None:
             c["retries"] = shape_pick % 3         # proxy._pyroMaxRetries 0 / 1 / 2, rotating through classes and serializers
+        if kind == "i" and (shape_pick if shape_pick is not None else rng.randint(0, 3)) % 4 != 0:
+            # a housekeeping run before every item, with stream limits (seconds) far above the stream's age
+            c["hk"] = {"lifetime": rng.choice([0, 60, 3600]), "linger": rng.choice([0, 30])}
         cases.append(c)
     # exhaustive sweep
     i = 0
@@ -394,11 +400,19 @@ def run_call(rig, cmap, c):
             p.prop = 1
             o.value = ("v", None)
         elif kind == "i":
+            hk = c.get("hk")
+            if hk:
+                rig.config.ITER_STREAM_LIFETIME, rig.config.ITER_STREAM_LINGER = float(hk["lifetime"]), float(hk["linger"])
             it = iter(p.stream())
             try:
                 while True:     # next() by hand: a `for` would swallow a StopIteration that carries the remote content
+                    if hk:
+                        rig.daemon._housekeeping()      # what the transport servers run periodically / after every event batch
                     o.yielded.append(next(it))
             finally:
+                if hk:
+                    rig.config.ITER_STREAM_LIFETIME, rig.config.ITER_STREAM_LINGER = rig.saved_stream
+
                 # detach the iterator now: its __del__ would otherwise run whenever the garbage collector finds it (it
                 # hangs in the traceback's frame cycle), possibly in the daemon's own acceptor thread of this process
                 it.proxy = None
@@ -512,6 +526,8 @@ def driver_line(c, o, derr, batch_fallback):
         return "batch %d %s %s %d %s %s" % (SEQ_OUT[c["ser"]], ue, ctor, 1 if batch_fallback else 0, TB_TOKEN, " ".join(steps))
     kind = c["kind"]
     retries = int(c.get("retries", 0)) if kind in ("p", "c") else 0
+    if kind == "i" and c.get("hk"):     # stream item after a housekeeping run: age 1 ms, limits in ms, client connected
+        kind = "h1:%d:%d" % (int(c["hk"]["lifetime"]) * 1000, int(c["hk"]["linger"]) * 1000)
     return "single %d %d %s %s %s %s %s" % (retries, SEQ_OUT[c["ser"]], ue, ctor, kind, TB_TOKEN, ex)
 
 
@@ -519,7 +535,8 @@ def driver_line(c, o, derr, batch_fallback):
 # D: the property itself, on the real observation (independent of the model)
 # ----------------------------------------------------------------------------------------------
 def describe(c):
-    return "%s/%s%s %s(%s) attrs=%s" % (c["ser"], KIND_NAME[c["kind"]], " max_retries=%d" % c["retries"] if c.get("retries") else "",
+    return "%s/%s%s%s %s(%s) attrs=%s" % (c["ser"], KIND_NAME[c["kind"]], " max_retries=%d" % c["retries"] if c.get("retries") else "",
+                                          " housekeeping(lifetime=%s,linger=%s)" % (c["hk"]["lifetime"], c["hk"]["linger"]) if c.get("hk") else "",
                                         c["cls"], json.dumps(c["args"])[:80], json.dumps(c["attrs"])[:80])
 
 
@@ -611,9 +628,11 @@ def check_property(ctx, c, o, derr):
         ctx.fail("roundtrip-mismatch:" + KIND_NAME[kind], "remote %s%r with attributes %r arrived with different %s (%s)"
                  % (name, tuple(o.margs), want_attrs, "; ".join(problems), describe(c)), c)
         return
-    if kind == "c" or ((f["sec"] or f["comm"]) and kind != "b"):
+    if kind == "c" or (f["sec"] and kind != "b"):
         ctx.count("out-of-statement:reply-then-connection-dropped")
     elif o.next != "ok":
+        # also for a forwarded CommunicationError (SerializeError): the server drops the connection after replying, but
+        # raising it inside _pyroInvoke releases the proxy's end, so the next call reconnects (C07_usable_after_comm)
         ctx.fail("next-call-fails:" + KIND_NAME[kind], "the exception arrived intact but the next call on the proxy: %s (%s)"
                  % (o.next, describe(c)), c)
 
